@@ -34,11 +34,11 @@ CHECKS = {
                 note="Report ages are injected by rewriting timestamps in the metadata snapshot (wide 100 s margins, per-step wall time asserted); only the 'only if' direction stated by the property is judged. Trusted: reference model in quorummc.rs."),
     "C15": dict(engine="enummc", cat="model_checking", ref="3/C15",
                 technique="bounded-exhaustive enumeration of RESP values x split points x raw byte strings against a strict reference framer",
-                text="All grammar values up to a nesting/width bound round-trip; every 1- and 2-cut split of every stream (single packets and pipelines) through the session codec, the hint-driven client decoder and the stateless multi decoder yields the one-piece packet sequence without consuming incomplete data; every byte string up to a length bound over the framing alphabet (plus all short suffixes after mid-packet prefixes) gets the verdict of a strict reference framer (valid => same value and length, prefix => None untouched, invalid => never a value).",
+                text="All grammar values up to a nesting/width bound round-trip; every 1- and 2-cut split of every stream (single packets and pipelines) through the session codec, the hint-driven client decoder and the stateless multi decoder yields the one-piece packet sequence without consuming incomplete data; every byte string up to a length bound over the framing alphabet (plus all short suffixes after mid-packet prefixes) gets the verdict of a strict reference framer (valid => same value and length, prefix => None untouched, invalid => never a value); plus a length-header family: bulk and array headers at and beyond the edges of i32/u32/i64/u64/i128 (+-3), signs, leading zeros, non-ASCII digits, alone and followed by data that a wrapped-around length would make fit.",
                 note="Trusted: the reference framer in enummc (written from the RESP specification; tolerant where leniency still yields the intended value: '+' sign in lengths, lone CR inside a line). Bounds: lengths / nesting stated in the evidence."),
     "C09": dict(engine="simnet", cat="model_checking", ref="3/C09",
                 technique="bounded-exhaustive enumeration of keys (every brace placement) against a bit-wise CRC16/hash-tag reference, and of slot layouts x probe slots x multi-key shapes on one real proxy over a harness-owned network",
-                text="Keys: every byte string up to the length bound over {'{','}','a','b',0x00,0xFF} plus published vectors, real generate_slot/same_slot vs a reference written from the Redis Cluster specification. Routing: every assignment of six boundary segments to {local node 1, local node 2, peer X, peer Y, nobody} is installed through a real UMCTL SETCLUSTER on a real ForwardHandler and probed at the first/last slot of each segment (GET and CLUSTER KEYSLOT), all 16384 slots on a sample of layouts; oracle: local => executed on exactly that node's stand-in, peer => MOVED <slot> <peer>, nobody => error and no execution; 20 multi-key shapes (MGET/MSET/MSETNX/DEL/EXISTS/EVAL/BLPOP) must be refused unless all keys share a slot and then touch only the owner.",
+                text="Keys: every byte string up to the length bound over {'{','}','a','b',0x00,0xFF} plus published vectors, real generate_slot/same_slot vs a reference written from the Redis Cluster specification. Routing: every assignment of six boundary segments to {local node 1, local node 2, peer X, peer Y, nobody}, in three wire shapes (one entry per node with a range list; one entry per range in ascending / descending order), is installed through a real UMCTL SETCLUSTER on a real ForwardHandler and probed at the first/last slot of each segment (GET and CLUSTER KEYSLOT), all 16384 slots on a sample of layouts; oracle: local => executed on exactly that node's stand-in, peer => MOVED <slot> <peer>, nobody => error and no execution; 20 multi-key shapes (MGET/MSET/MSETNX/DEL/EXISTS/EVAL/BLPOP) must be refused unless all keys share a slot and then touch only the owner.",
                 note="Trusted: reference CRC/hash-tag implementation (self-checked against published vectors); the in-harness Redis stand-in; the harness mini-session that feeds ForwardHandler::handle_cmd_ctx (handle_session itself is covered by C08)."),
     "C17": dict(engine="enummc+simnet", cat="model_checking", ref="3/C17",
                 technique="bounded-exhaustive enumeration of control-plane values x both encodings x all single-token mutations against strict reference parsers",
@@ -46,7 +46,7 @@ CHECKS = {
                 note="Trusted: reference parsers in c17.rs (tolerant where the real grammar is deliberately open: unknown flags ignored, '+' in numbers, tokens after a complete task descriptor). Broker-produced SETCLUSTER/SETREPL messages travel through the real encoders and parsers in every C02/C07/C13 case."),
     "C20": dict(engine="simnet", cat="model_checking", ref="3/C20",
                 technique="bounded-exhaustive enumeration of strategy x topology x write shape x read shape x value on real proxies with a storing Redis stand-in",
-                text="Every combination of compression strategy {disabled, set_get_only, allow_all}, topology {owner proxy; non-owner proxy with active redirection, without and with UMFORWARD}, 11 write shapes (SET with/without EX/NX/PX XX, SETEX, PSETEX, SETNX, GETSET, MSET 1/3 pairs, MSETNX), value class (empty, 1 byte, all 256 byte values, RESP look-alike, incompressible, zeros, a zstd frame, OK, integer text) and read shape (GET, MGET with a missing key, GETSET) is executed; oracle: reads return the written bytes, the node stores a payload that zstd-decodes to the value with the original ttl, keys/options/non-string replies untouched, the 14 string-content commands refused and not forwarded under set_get_only, nothing altered under disabled.",
+                text="Every combination of compression strategy {disabled, set_get_only, allow_all}, topology {owner proxy; non-owner proxy with active redirection, without and with UMFORWARD}, 11 write shapes (SET with/without EX/NX/PX XX, SETEX, PSETEX, SETNX, GETSET, MSET 1/3 pairs, MSETNX), value class (empty, 1 byte, all 256 byte values, RESP look-alike, incompressible 1 KiB / 8193 / 131072 / 200000 bytes (thorough up to 3 MB, around the 8 KiB and 128 KiB buffer sizes of the compression library), 300000 bytes of text, zeros, a zstd frame, OK, integer text; thorough: every single byte, 2-byte strings over a framing alphabet, lengths around powers of two) and read shape (GET, MGET with a missing key, GETSET) is executed; oracle: reads return the written bytes, the node stores a payload that zstd-decodes to the value with the original ttl, keys/options/non-string replies untouched, the 14 string-content commands refused and not forwarded under set_get_only, nothing altered under disabled.",
                 note="Trusted: the Redis stand-in; zstd crate for the decode check. Values are a finite class menu, not all byte strings."),
     "C05": dict(engine="simnet+thrsched", cat="model_checking", ref="3/C05",
                 technique="sequential: bounded-exhaustive enumeration of SETCLUSTER/SETREPL sequences on a real proxy against a two-register reference model; concurrent: preemption-bounded exhaustive DFS over schedules of real threads at cfg-guarded scheduling points in set_meta / update_replicators",
@@ -58,11 +58,11 @@ CHECKS = {
                 note="Waiting loops are modelled as blocking on precise events (so spinning does not unroll); only SeqCst interleavings at the hooked points are explored (orderings and point coverage are checked textually on every run; a pass is refused if coverage is incomplete). crossbeam_channel and DashMap internals are treated as atomic operations."),
     "C16": dict(engine="hostile", cat="model_checking", ref="3/C16",
                 technique="bounded-exhaustive enumeration of hostile inputs (raw bytes, length prefixes, nesting, truncations, every command x extreme arguments, control messages with extreme numbers) executed on the real decoder and handler in a watched child process with a counting allocator",
-                text="Every input of four finite families is decoded by the real session codec and handled by the real ForwardHandler (metadata unset and set) on a 2 MiB stack inside a child process; per input the parent records panic, process death (abort, stack overflow, allocator refusal above 1 GiB), peak extra memory (<= 64*len + 4 MiB), wall time (3 s watchdog, 2 s slow limit), reply within 100 virtual seconds or connection close, and that a second connection's PING is still answered.",
+                text="Every input of four finite families (incl. keys, values, command names and sub-commands of 90..130 ASCII bytes followed by 2-/3-/4-byte UTF-8 characters) is decoded by the real session codec and handled through the real per-request session path (Session::handle_cmd with slow-log sampling on, ForwardHandler, handle_slowlog; metadata unset and set) on a 2 MiB stack inside a child process; per input the parent records panic, process death (abort, stack overflow, allocator refusal above 1 GiB), peak extra memory (<= 64*len + 4 MiB), wall time (3 s watchdog, 2 s slow limit), reply within 100 virtual seconds or connection close, and that a second connection's PING is still answered.",
                 note="Resource clauses are measured with fixed constants on bounded families - evidence for the explored inputs, not a proof for all lengths. Blocking pops are judged against their own timeout. Trusted: counting allocator, watchdog, Redis stand-in."),
     "C08": dict(engine="pollmc+sessmc", cat="fault_enumeration", ref="3/C08",
                 technique="deviation-bounded exhaustive enumeration of environment answers (Pending / Err / EOF / connect failure at every connect, poll_ready, start_send, poll_flush, poll_next) to the real backend connection handling with real CmdCtx tasks; plus exhaustive enumeration of request-byte splits x arrival/completion interleavings x completion kinds through the real handle_session over loopback TCP",
-                text="BACKEND LEVEL: the real sender stack (gen_sender_factory: CachedSender, RoundRobinSenderGroup, RecoverableBackendNode, handle_backend/handle_conn with retry, ReplyCommitHandler) runs over a scripted connection that answers every request with the id found in the request bytes; scenarios: batching {disabled, fixed, dynamic} x low flush interval {0, 1h} x 1-2 connections x pipelines of 1-3 requests (late submission) x one vanished client; every script with <= 3 (thorough 4) deviations is executed to completion; oracle: every request gets exactly one result, a successful result carries the request's own id and only if the backend received its bytes, nothing stays unanswered. SESSION LEVEL: the real handle_session + Session (CmdCtx and reply channel) over a loopback TcpStream with the harness as CmdCtxHandler; pipelines of 1-3 (thorough 4) requests cut into 2 chunks at every byte offset and 3 chunks at chosen offset pairs, every interleaving of chunk arrival and reply completion, every completion order x kind vector {reply, error, CmdCtx dropped}; after every event the wire holds exactly the replies of the longest answered prefix, each belonging to its own request (an error reply for a failed or dropped one).",
+                text="BACKEND LEVEL: the real sender stack (gen_sender_factory: CachedSender, RoundRobinSenderGroup, RecoverableBackendNode, handle_backend/handle_conn with retry, ReplyCommitHandler) runs over a scripted connection that answers every request with the id found in the request bytes; scenarios: batching {disabled, fixed, dynamic} x low flush interval {0, 1h} x 1-2 connections x pipelines of 1-3 requests (late submission) x one vanished client; deviations also include a stalled backend (nothing delivered for 7 s of virtual time = more than two read-timeout periods, then everything in order) and scenarios whose late request joins the connection 3.5 s after the first (between two timeout ticks); every script with <= 4 (thorough 5) deviations is executed to completion; oracle: every request gets exactly one result, a successful result carries the request's own id and only if the backend received its bytes, nothing stays unanswered. SESSION LEVEL: the real handle_session + Session (CmdCtx and reply channel) over a loopback TcpStream with the harness as CmdCtxHandler; pipelines of 1-3 (thorough 4) requests cut into 2 chunks at every byte offset and 3 chunks at chosen offset pairs, every interleaving of chunk arrival and reply completion, every completion order x kind vector {reply, error, CmdCtx dropped}; after every event the wire holds exactly the replies of the longest answered prefix, each belonging to its own request (an error reply for a failed or dropped one).",
                 note="Session level: socket timing is not controlled (each step waits for its expected observable, deadline 20 s, then reads 2 ms more to catch early bytes). The scripted backend stream ends after an error item like tokio_util's FramedRead. Trusted: scripted environment, driver time policy (1 ms / 1 s idle advances)."),
     "C02": dict(engine="simnet", cat="model_checking", ref="3/C02",
                 technique="explicit enumeration of reachable broker states x encoding x migration limit x handshake phase; real coordinator sync onto fresh real proxies; exhaustive routing probes (start proxy x boundary slots, all 16384 slots on a sample) against the broker-designated owner",
@@ -78,15 +78,15 @@ CHECKS = {
                 note="Uses real loopback sockets on 127.0.0.1-3:7000-7001 (uncontrolled timing, controlled data; cases run sequentially). The view assignment family is systematic but not the full product of all assignments. The hook proposed in the property (caller-supplied max epoch) is not used: the production path is exercised as is."),
     "C03": dict(engine="simnet", cat="model_checking", ref="3/C03",
                 technique="delay-bounded exhaustive enumeration of message-level schedules (stateless DFS over a harness-owned network) of real proxies during a live migration, with a brute-force linearizability oracle over replies and final store contents",
-                text="Scenarios: 4->8 node scale-out, one focus migration between two real proxies (real broker, real coordinator rounds), two clients with 1-2 commands {GET,SET,DEL,INCR,EXISTS,EXPIRE,MSETNX,EVAL} on two keys that share a migration lock slot (plus one key outside the range) entering at the source, destination or a bystander proxy at different moments of the scan. Every proxy->proxy and proxy->Redis request waits at a gate owned by the explorer; all schedules with at most d deferrals (d=2 quick, 3 thorough; wide command-pair family d-1) are run to completion including the commit; each history (invocation/response steps, replies) together with the final contents of source and destination must admit a sequential explanation from the initial contents; keys of the range must be gone from the source.",
+                text="Scenarios: 4->8 node scale-out, one focus migration between two real proxies (real broker, real coordinator rounds), two clients with 1-2 commands {GET,SET,DEL,INCR,EXISTS,EXPIRE,MSETNX,EVAL} on two keys that share a migration lock slot (plus one key outside the range) entering at the source, destination or a bystander proxy at different moments of the scan. Every proxy->proxy and proxy->Redis request waits at a gate owned by the explorer; all schedules with at most d deferrals (d=2 quick, 3 thorough; wide command-pair family d-1) are run to completion including the commit; each history (invocation/response steps, replies) together with the final contents of source and destination must admit a sequential explanation from the initial contents; keys of the range must be gone from the source. The scenarios with a push-path command (DEL, EXPIRE) are additionally explored under a slow-scanner default schedule (a pending SCAN is served only when nothing else is pending), which brings three-reordering races of push, scan and client inside the two-deferral bound.",
                 note="Bound: a deferral lasts 16 explorer steps; in the quick tier a request can be deferred only while something else is enabled, in the thorough tier also when it is alone (time then passes in 1 ms steps); 1 ms timer steps otherwise only when nothing else is enabled. Trusted: the Redis stand-in (DUMP/RESTORE/BUSYKEY, EXISTS, scripts), real-time order by explorer step. The 2 clients x 2 keys alphabet is the whole data space explored."),
     "C07": dict(engine="simnet", cat="model_checking", ref="3/C07",
                 technique="fault-plan enumeration (stateless DFS over global call indices) of real coordinator rounds against the real broker and real proxies on a harness-owned network, with invariant and convergence oracles",
-                text="Scripts (create cluster; scale-out with migration; migration source / destination proxy dies mid-migration; scale-in) run the real coordinator loops (metadata sync, migration-state sync, failure detection, failure handling) against the real in-memory broker and 6 real proxies. Every outgoing coordinator call (broker or proxy) passes one gate and gets a global index; all plans of <= d faults (d=1 quick, 2 thorough with the second fault within 30 calls) in the fault window are executed: request lost, reply lost after execution, duplicated, delayed and delivered stale, coordinator crash before the call, target proxy restarted empty, a second coordinator running a whole pass between two calls, the next admin operation applied between two calls. Oracles: accepted SETCLUSTER/SETREPL epochs strictly increase per proxy incarnation; GETEPOCH never decreases; every task committed at most once and a refused commit leaves the store unchanged; in the committing round the destination is updated before the source; after 4 fault-free passes every registered, non-failed, reachable proxy reports the broker's epoch and holds (UMCTL INFO, canonicalised) exactly what a fresh proxy fed from the broker holds; no finished migration stays uncommitted.",
+                text="Scripts (create cluster; scale-out with migration; migration source / destination proxy dies mid-migration; scale-in) run the real coordinator loops (metadata sync, migration-state sync, failure detection, failure handling) against the real in-memory broker and 6 real proxies. Every outgoing coordinator call (broker or proxy) passes one gate and gets a global index; all plans of <= d faults (d=1 quick, 2 thorough with the second fault within 30 calls) in the fault window are executed: request lost, reply lost after execution, duplicated, delayed and delivered stale, coordinator crash before the call, target proxy restarted empty, a second coordinator running a whole pass between two calls, the next admin operation applied between two calls. Oracles: accepted SETCLUSTER/SETREPL epochs strictly increase per proxy incarnation; GETEPOCH never decreases; every task committed at most once and a refused commit leaves the store unchanged; in the committing round the destination is updated before the source (its SETCLUSTER is issued first AND has been answered when the source request is issued); after 4 fault-free passes every registered, non-failed, reachable proxy reports the broker's epoch and holds (UMCTL INFO, canonicalised) exactly what a fresh proxy fed from the broker holds; no finished migration stays uncommitted.",
                 note="Interleaving of two coordinators is at whole-pass granularity (a pass of B between any two calls of A), not call-by-call. Failure quorum 1. Trusted: Redis stand-in; migration data transfer itself is C03's subject."),
     "C19": dict(engine="simnet", cat="model_checking", ref="3/C19",
                 technique="enumeration of PTTL reply classes x the three transfer paths on complete real migrations between real proxies, with the source stand-in scripted; observation of the RESTORE ttl argument at the destination stand-in",
-                text="For each transfer path (background scan; on-demand pull triggered by a read at the destination proxy while the scan is held; push triggered by a deleting command => UMSYNC) and each PTTL reply class {-2,-1,0,1,2,999,2^31,2^63-1,2^63,'abc','','+5','-0'} a full migration (real broker, real coordinator sync, 4 real proxies) is run and the ttl argument of the RESTORE that reaches the destination is judged: -1 => 0, p>=1 => 1..p, 0 => >=1 (never the value RESTORE reads as persistent), -2 => no transfer, malformed => no panic; plus real TTL round trips (persistent, 400 ms, 5 s, 100 s) checked by PTTL at the destination, plus PTTL replies {-1,1,2,999} from a source whose PTTL/DUMP answers take 12 ms of real and of virtual time (longer than the key has left) on all three paths.",
+                text="For each transfer path (background scan; on-demand pull triggered by a read at the destination proxy while the scan is held; push triggered by a deleting command => UMSYNC) and each PTTL reply class {-2,-1,0,1,2,999,2^31,2^63-1,2^63,'abc','','+5','-0'} a full migration (real broker, real coordinator sync, 4 real proxies) is run and the ttl argument of the RESTORE that reaches the destination is judged: -1 => 0, p>=1 => 1..p, 0 => >=1 (never the value RESTORE reads as persistent), -2 => no transfer, malformed => no panic; plus real TTL round trips (persistent, 400 ms, 5 s, 100 s) checked by PTTL at the destination, plus PTTL replies {-1,1,2,999} from a source whose PTTL/DUMP answers take 12 ms of real and of virtual time (longer than the key has left) on all three paths. BATCH FAMILY: 2-3 (thorough 4) keys in one scan batch, each answering from {(-2,nil),(-2,payload),(-1,payload),(-1,nil),(5000,payload),(7,nil)} = (PTTL, DUMP) - the disagreeing pairs are keys that expire / vanish / appear between the pipelined PTTL and DUMP - every combination; each RESTORE reaching the destination is judged against the PTTL answer of its own key.",
                 note="Interleavings with client traffic are the subject of C03; here each case is one deterministic run. Trusted: Redis stand-in (RESTORE/PTTL semantics), phase control by holding SCAN."),
 }
 
@@ -155,7 +155,7 @@ def main():
         ],
         "checks": checks,
         "not_applicable": [{"property_id": p, "reason": r} for p, r in sorted(NOT_YET.items()) if p not in CHECKS],
-        "notes": "See DESIGN.md. Known findings / fixed defects: KNOWN_FINDINGS.json. Exit code 2 of a check = machinery error, never a verdict.",
+        "notes": "See DESIGN.md. `check` runs the cheap engines (C02 C08 C09 C14 C15 C16 C17 C19 C20) one exploration level higher in both tiers (--boost 1): their quick tier uses the former thorough bounds. All simnet/pollmc checks feed requests through the production per-request session path as indexed packets and exchange encode()d bytes on connections. Known findings / fixed defects: KNOWN_FINDINGS.json. Exit code 2 of a check = machinery error, never a verdict.",
     }
     json.dump(m, open("/verif/MANIFEST.json", "w"), indent=1)
     print("checks:", len(checks), "not_applicable:", len(m["not_applicable"]))
